@@ -280,4 +280,113 @@ theorem appendJSON_flat (o : Opts) (ord : Kvs → Kvs) (lim : Option Nat) :
           simp [tightL]
 
 
+/-! ### without an `io.Writer` nothing is handed over -/
+
+theorem appendElems_sent (wv : JV → Nat → St → St) (cs : Bytes) (d2 : Nat)
+    (hwv : ∀ m d s, (wv m d s).sent = s.sent) :
+    ∀ (xs : List JV) (s : St), (appendElems wv cs d2 xs s).sent = s.sent := by
+  intro xs
+  induction xs with
+  | nil => intro s; rfl
+  | cons x r ih => intro s; simp [appendElems, ih, hwv, St.push1, St.push]
+
+theorem appendMembers_sent (o : Opts) (wv : JV → Nat → St → St) (cs : Bytes) (d2 : Nat)
+    (hwv : ∀ m d s, (wv m d s).sent = s.sent) :
+    ∀ (kvs : Kvs) (s : St) (e : Bool), (appendMembers o wv cs d2 kvs s e).1.sent = s.sent := by
+  intro kvs
+  induction kvs with
+  | nil => intro s e; rfl
+  | cons kv r ih =>
+    intro s e
+    obtain ⟨k, m⟩ := kv
+    simp only [appendMembers]
+    split
+    · exact ih s e
+    · rw [ih]; simp [hwv, St.push1, St.push]
+
+theorem tightMembers_sent (o : Opts) (wv : JV → Nat → St → St)
+    (hwv : ∀ m d s, (wv m d s).sent = s.sent) :
+    ∀ (kvs : Kvs) (s : St) (c : Bool), (tightMembers o wv kvs s c).1.sent = s.sent := by
+  intro kvs
+  induction kvs with
+  | nil => intro s c; rfl
+  | cons kv r ih =>
+    intro s c
+    obtain ⟨k, m⟩ := kv
+    simp only [tightMembers]
+    split
+    · exact ih s c
+    · rw [ih]; simp [hwv, St.push1, St.push]
+
+theorem appendJSON_sent (o : Opts) (ord : Kvs → Kvs) :
+    ∀ (f : Nat) (v : JV) (d : Nat) (s : St), (appendJSON o ord none f v d s).sent = s.sent := by
+  intro f
+  induction f with
+  | zero => intro v d s; rfl
+  | succ f ih =>
+    intro v d s
+    simp only [appendJSON, St.flush]
+    cases v with
+    | null => simp [St.push]
+    | bool b => cases b <;> simp [St.push]
+    | int i => simp [St.push]
+    | flt t => simp [St.push]
+    | big t => rfl
+    | num t => rfl
+    | str x => simp [St.push]
+    | arr xs =>
+      simp only
+      split
+      · simp only [appendArray]
+        split
+        · simp [St.push1, St.push, St.setLast, appendElems_sent _ _ _ ih]
+        · simp [St.push]
+      · simp only [tightArray]
+        split
+        · simp [St.push1, St.setLast, tightElems_eq, appendElems_sent _ _ _ ih]
+        · simp [St.push]
+    | obj kvs =>
+      simp only
+      split
+      · simp only [appendObject]
+        split
+        · simp [St.push1, St.push, St.setLast, appendMembers_sent o _ _ _ ih]
+        · simp [St.push1, appendMembers_sent o _ _ _ ih]
+      · simp only [tightObject]
+        split
+        · simp [St.push1, St.setLast, tightMembers_sent o _ ih]
+        · simp [St.push1, tightMembers_sent o _ ih]
+
+/-- the text of the in-memory call -/
+theorem ojWrite_eq_text (o : Opts) (ord : Kvs → Kvs) (v : JV) :
+    ojWrite o ord v = text o ord (layoutOf o) (depth v + 1) v 0 := by
+  have h1 := appendJSON_flat o ord none (depth v + 1) v 0 {}
+  have h2 := appendJSON_sent o ord (depth v + 1) v 0 {}
+  simp only [St.flat, h2] at h1
+  simpa [ojWrite, ojWriteSt, St.bytes] using h1
+
+theorem chunks_flatten (st : St) :
+    (if 0 < st.rbuf.length then (st.bytes :: st.sent).reverse else st.sent.reverse).flatten = st.flat := by
+  by_cases hz : 0 < st.rbuf.length
+  · rw [if_pos hz]; simp [St.flat, St.bytes]
+  · have : st.rbuf = [] := by
+      cases hr : st.rbuf with
+      | nil => rfl
+      | cons a t => simp [hr] at hz
+    rw [if_neg hz]; simp [St.flat, this]
+
+/-- the chunks handed to the `io.Writer`, joined, are the same text -/
+theorem ojWriteTo_flatten (o : Opts) (ord : Kvs → Kvs) (limit : Nat) (v : JV) :
+    (ojWriteTo o ord limit v).flatten = text o ord (layoutOf o) (depth v + 1) v 0 := by
+  have h1 : (ojWriteSt o ord (some (effLimit limit)) v).flat = text o ord (layoutOf o) (depth v + 1) v 0 := by
+    have := appendJSON_flat o ord (some (effLimit limit)) (depth v + 1) v 0 {}
+    have h0 : ({} : St).flat = [] := rfl
+    rw [h0, List.nil_append] at this
+    exact this
+  show (if 0 < (ojWriteSt o ord (some (effLimit limit)) v).rbuf.length then
+      ((ojWriteSt o ord (some (effLimit limit)) v).bytes :: (ojWriteSt o ord (some (effLimit limit)) v).sent).reverse
+    else (ojWriteSt o ord (some (effLimit limit)) v).sent.reverse).flatten = _
+  rw [chunks_flatten, h1]
+
+
 end OjgVerif.Writer
